@@ -71,7 +71,7 @@ def one(d):
         rc, o = sh('git -C %s apply %spatch.diff' % (root, d))
         if rc != 0:
             return name, 'PATCH DOES NOT APPLY ' + o[:100], True, set()
-        if meta.get('kind') == 'refactoring':
+        if meta.get('kind') in ('refactoring', 'refactoring-unsupported'):
             for f in re.findall(r'^\+\+\+ b/boltons/(\w+)\.py', open(d + 'patch.diff').read(), re.M):
                 others += [x for x in FILEPROPS.get(f, []) if x != prop]
         env = {'VERIF_REPO': root}
@@ -89,7 +89,10 @@ def one(d):
     lines = [l for l in o.splitlines() if l.startswith(('VIOLATION', '  rule', 'ANALYSIS-ERROR'))]
     meta['checks'] = {prop: {'exit': rc, 'report': lines[:6]}}
     is_bad = False
-    if meta.get('kind') == 'refactoring':
+    if meta.get('kind') == 'refactoring-unsupported':
+        meta['silent'] = rc == 0
+        verdict = 'LIMITATION (documented): %s' % ('now silent' if rc == 0 else 'exit=%d' % rc)
+    elif meta.get('kind') == 'refactoring':
         meta['silent'] = rc == 0
         verdict = 'SILENT' if rc == 0 else 'NOISY exit=%d %s' % (rc, lines[:2])
         is_bad = rc != 0
